@@ -6,7 +6,7 @@
      ProofsProgress  an accepted list is performed when nothing constrains allocation
      ProofsScript  nested compound commands and functions *)
 From Yv Require Export Common.Base C09.Kernel C09.Model C09.Spec
-  C09.ProofsTab C09.ProofsList C09.ProofsVal C09.ProofsSpec C09.ProofsProgress C09.ProofsScript.
+  C09.ProofsTab C09.ProofsList C09.ProofsVal C09.ProofsSpec C09.ProofsProgress C09.ProofsScript C09.Examples.
 
 Local Open Scope N_scope.
 
